@@ -274,7 +274,25 @@ func replayAttr(c Case) Result {
 	}
 	defer st.Close()
 	res.Actual = []Ev{{K: "op", Op: "attr", Side: c.Cfg.URL, Res: "cli:" + string(ct.Encryption()) + ",srv:" + string(st.Encryption())}}
-	res.Matched = len(c.Obs) == 1 && c.Obs[0].Res == res.Actual[0].Res
+	// what each end answers when a negotiation asks it to apply an encryption (C09: an end that accepts
+	// a confirmed option has it in force afterwards; one that cannot apply it says so)
+	for _, end := range []struct {
+		name string
+		t    lime.Transport
+	}{{"cli", ct}, {"srv", st}} {
+		for _, e := range []lime.SessionEncryption{lime.SessionEncryptionNone, lime.SessionEncryptionTLS} {
+			out := "ok"
+			if err := end.t.SetEncryption(ctx, e); err != nil {
+				out = "err"
+			}
+			res.Actual = append(res.Actual, Ev{K: "op", Op: "setenc", Side: c.Cfg.URL,
+				Res: end.name + ":" + string(e) + ":" + out + ":" + string(end.t.Encryption())})
+		}
+	}
+	res.Matched = len(c.Obs) == len(res.Actual)
+	for i := 0; res.Matched && i < len(c.Obs); i++ {
+		res.Matched = c.Obs[i].Res == res.Actual[i].Res && c.Obs[i].Op == res.Actual[i].Op
+	}
 	return res
 }
 
